@@ -137,7 +137,7 @@ class AppArgumentParser(argparse.ArgumentParser):
     def comma_list(cls, string):
         '''Convert a comma separated string to list.'''
         items = string.split(',')
-        items = list([item.strip() for item in items])
+        items = list([item.strip() for item in items if item.strip()])
         return items
 
     @classmethod
